@@ -183,6 +183,11 @@ func (s *Scheduler) run(now time.Time) {
 	})
 	for _, e := range entries {
 		t := e.Next
+		if t.IsZero() {
+			// the expression can never match (e.g. February 30th): the cron
+			// library reports that as the zero time, which is not "due".
+			continue
+		}
 		if t.After(now) {
 			break
 		}
